@@ -227,3 +227,61 @@ package bondmachine
 //@   ensures tight: num > 0 ==> (result == 1 || pow2(result - 1) < num)
 //@   loop 1: invariant 1 <= bits && bits <= 62 && (bits == 1 || pow2(bits - 1) < num) && num > 0 && num == old(num)
 //@   loop 1: decreases 63 - bits
+
+//@ props C11
+
+// m is the JSON image of machine d: every persisted field copied (procbuilder.Machine.Jsoner's postcondition)
+//@ pred machineImage(j *procbuilder.Machine_json, d *procbuilder.Machine) := j != nil &&
+//@        len(j.Modes) == len(d.Modes) && (forall k int :: 0 <= k && k < len(d.Modes) ==> j.Modes[k] == d.Modes[k]) &&
+//@        j.Rsize == d.Rsize && j.WordSize == d.WordSize && j.R == d.R && j.N == d.N && j.M == d.M && j.L == d.L && j.O == d.O &&
+//@        j.Shared_constraints == d.Shared_constraints && j.Threaded == d.Threaded &&
+//@        len(j.Slocs) == len(d.Slocs) && (forall k int :: 0 <= k && k < len(d.Slocs) ==> j.Slocs[k] == d.Slocs[k]) &&
+//@        len(j.Vars) == len(d.Vars) && (forall k int :: 0 <= k && k < len(d.Vars) ==> j.Vars[k] == d.Vars[k]) &&
+//@        len(j.Op) == len(d.Op)
+
+//@ interface Shared_instance method String() string
+//@   pure
+//@   trusted
+
+// Parsing the textual form of a shared object is assumed to be a function of the text only (regexp/strconv code).
+//@ interface Shared_element method Instantiate(s string) (Shared_instance, bool)
+//@   pure
+//@   trusted
+
+//@ func (bmach *Bondmachine) Jsoner() *Bondmachine_json
+//@   requires bmach != nil && (forall k int :: 0 <= k && k < len(bmach.Domains) ==> bmach.Domains[k] != nil) &&
+//@            (forall k int :: 0 <= k && k < len(bmach.Domains) ==> (forall q int :: 0 <= q && q < len(bmach.Domains[k].Op) ==> bmach.Domains[k].Op[q] != nil)) &&
+//@            (forall k int :: 0 <= k && k < len(bmach.Shared_objects) ==> bmach.Shared_objects[k] != nil)
+//@   ensures fresh: result != nil && fresh(result)
+//@   ensures scalars: result.Rsize == bmach.Rsize && result.Inputs == bmach.Inputs && result.Outputs == bmach.Outputs
+//@   ensures topology: result.Processors == bmach.Processors && result.Internal_inputs == bmach.Internal_inputs && result.Internal_outputs == bmach.Internal_outputs &&
+//@             result.Links == bmach.Links && result.Shared_links == bmach.Shared_links
+//@   ensures domains: len(result.Domains) == len(bmach.Domains) && (forall i int :: 0 <= i && i < len(bmach.Domains) ==> machineImage(result.Domains[i], bmach.Domains[i]))
+//@   ensures shared: len(result.Shared_objects) == len(bmach.Shared_objects) && (forall i int :: 0 <= i && i < len(bmach.Shared_objects) ==> result.Shared_objects[i] == bmach.Shared_objects[i].String())
+//@   covers result Bondmachine_json
+//@   assigns nothing
+//@   loop 1: modifies result.Domains[*]
+//@   loop 1: invariant forall k int :: 0 <= k && k < $i ==> machineImage(result.Domains[k], bmach.Domains[k])
+//@   loop 2: modifies result.Shared_objects[*]
+//@   loop 2: invariant forall k int :: 0 <= k && k < $i ==> result.Shared_objects[k] == bmach.Shared_objects[k].String()
+
+//@ pred machineLoaded(d *procbuilder.Machine, j *procbuilder.Machine_json) := d != nil &&
+//@        len(d.Modes) == len(j.Modes) && (forall k int :: 0 <= k && k < len(j.Modes) ==> d.Modes[k] == j.Modes[k]) &&
+//@        d.Rsize == j.Rsize && d.WordSize == j.WordSize && d.R == j.R && d.N == j.N && d.M == j.M && d.L == j.L && d.O == j.O &&
+//@        d.Shared_constraints == j.Shared_constraints && d.Threaded == j.Threaded &&
+//@        len(d.Slocs) == len(j.Slocs) && (forall k int :: 0 <= k && k < len(j.Slocs) ==> d.Slocs[k] == j.Slocs[k]) &&
+//@        len(d.Vars) == len(j.Vars) && (forall k int :: 0 <= k && k < len(j.Vars) ==> d.Vars[k] == j.Vars[k]) &&
+//@        len(d.Op) == len(j.Op)
+
+//@ func (bmachj *Bondmachine_json) Dejsoner() *Bondmachine
+//@   requires bmachj != nil && (forall k int :: 0 <= k && k < len(bmachj.Domains) ==> bmachj.Domains[k] != nil) &&
+//@            (forall k int :: 0 <= k && k < len(procbuilder.Allopcodes) ==> procbuilder.Allopcodes[k] != nil)
+//@   ensures fresh: result != nil && fresh(result)
+//@   ensures scalars: result.Rsize == bmachj.Rsize && result.Inputs == bmachj.Inputs && result.Outputs == bmachj.Outputs
+//@   ensures topology: result.Processors == bmachj.Processors && result.Internal_inputs == bmachj.Internal_inputs && result.Internal_outputs == bmachj.Internal_outputs &&
+//@             result.Links == bmachj.Links && result.Shared_links == bmachj.Shared_links
+//@   ensures domains: len(result.Domains) == len(bmachj.Domains) && (forall i int :: 0 <= i && i < len(bmachj.Domains) ==> machineLoaded(result.Domains[i], bmachj.Domains[i]))
+//@   ensures shared: len(result.Shared_objects) == len(bmachj.Shared_objects)
+//@   covers result Bondmachine
+//@   frameonly
+//@   loop 1: invariant forall k int :: 0 <= k && k < $i ==> machineLoaded(result.Domains[k], bmachj.Domains[k])
